@@ -69,6 +69,8 @@ func Main() {
 			scs = c02bScenarios()
 		case "C17":
 			scs = c17bScenarios()
+		case "C12":
+			scs = c12bScenarios()
 		}
 		n := RacePass(scs, 30)
 		fmt.Printf("race pass: %d free runs of %d scenarios\n", n, len(scs))
@@ -160,6 +162,7 @@ func Replay(job *Job) int {
 		all = append(all, c05Scenarios("thorough")...)
 		all = append(all, c02bScenarios()...)
 		all = append(all, c17bScenarios()...)
+		all = append(all, c12bScenarios()...)
 		for _, sc := range all {
 			if sc.Name != rp.Scenario {
 				continue
